@@ -11,11 +11,11 @@ TRUST = ("Trusted: Verus 0.2026.09.13+Z3, Kani 0.68+CBMC 6.11; the extractor's r
 
 CLAIMS = {
     # id: (decided text, outside text, technique, design_ref)
-    'C01': ("Decided for all inputs (Verus, unbounded): the durability chain Session::commit_transaction -> TransactionLogger::{log_commit, log_end} -> Pager::{push_to_log, flush_wal} -> WriteAheadLog::{push, perform_flush}: when COMMIT returns Ok the transaction's COMMIT record is in what a reader obtains from the log file; every single block write the force issues only ever EXTENDS the readable log (crash cut between any two writes loses no forced record); block zero is written after the blocks it accounts for; dropping a committed session appends nothing; the analysis pass of recovery puts exactly the transactions whose last status record is COMMIT into the redo set (loop invariant over the whole log, any log); a checkpoint (Pager::flush) leaves an openable, empty log with every dirty page and the header written. Recovery dispatch (WalRecuperator::run_recovery/run_undo/run_redo): the undo pass runs first and calls only undo handlers, the redo pass only redo handlers, each only for transactions of its own analysis set. Write-ahead rule (DmlExecutor::insert/update/delete): on every path the log record naming this table and this row is appended before the table's tree is modified.",
-            "Outside (not claimed): what the redo/undo handlers do to table contents (logical DML/DDL through every layer), the autocommit closures in Database::execute, torn block writes.",
+    'C01': ("Decided for all inputs (Verus, unbounded): the durability chain Session::commit_transaction -> TransactionLogger::{log_commit, log_end} -> Pager::{push_to_log, flush_wal} -> WriteAheadLog::{push, perform_flush}: when COMMIT returns Ok the transaction's COMMIT record is in what a reader obtains from the log file; every single block write the force issues only ever EXTENDS the readable log (crash cut between any two writes loses no forced record); block zero is written after the blocks it accounts for; dropping a committed session appends nothing; the analysis pass of recovery puts exactly the transactions whose last status record is COMMIT into the redo set (loop invariant over the whole log, any log); a checkpoint (Pager::flush) leaves an openable, empty log with every dirty page and the header written. Recovery dispatch (WalRecuperator::run_recovery/run_undo/run_redo): the undo pass runs first and calls only undo handlers, the redo pass only redo handlers, each only for transactions of its own analysis set. The six DML handlers of recovery apply the image they are handed unconditionally -- decoded as logged, not filtered through the recovery snapshot (Verus, unit redohandlers: redo_insert inserts the logged row, redo_update applies old -> new, undo_update new -> old, undo_delete re-inserts the old row, undo_insert / redo_delete delete by the logged row id). Write-ahead rule (DmlExecutor::insert/update/delete): on every path the log record naming this table and this row is appended before the table's tree is modified.",
+            "Outside (not claimed): that re-executing the logged statements through DmlExecutor rebuilds the right contents (a differential crash probe still loses committed work across several crash cycles with open transactions: DESIGN section 5, not repaired), DDL handlers, the autocommit closures in Database::execute, torn block writes.",
             "Verus contracts on verbatim-extracted functions; crash cuts as preconditions of the file-write primitive", "4 C01, Appendix A.2"),
     'C02': ("Decided: ROLLBACK/abandoned sessions append an ABORT record of their own transaction before END (Verus, chain Session::abort_transaction -> log_abort -> push_to_log); Session::drop aborts only open transactions; WriteAheadLog::run_analysis computes redo = {last status record is COMMIT}, undo = {begun and not redone} and keys every DML/DDL record by its own LSN, for every log (Verus, loop invariant; lemma: the two sets are disjoint when ids are not reused); the aborted-transaction bitmap in page zero records and reports every tracked id exactly (Kani, full domain) and get_aborted_transactions reloads exactly the recorded ids (Verus). The undo pass of recovery dispatches every logged operation of every transaction in the undo set to an undo handler and to nothing else (Verus, run_undo).",
-            "Outside: what the undo handlers do to table contents, page steal/write-back interplay; ids >= 8192 are a recorded known finding (C09).",
+            "Outside: what DmlExecutor does with the undone statements (see C01), checkpoints taken while transactions are open (Pager::flush writes their pages and drops their log records), page steal/write-back interplay; ids >= 8192 are a recorded known finding (C09).",
             "Verus contracts on extracted functions + complete Kani harnesses / function contract on the real crate", "4 C02"),
     'C03': ("Decided for all inputs: a version created or deleted by an aborted transaction is treated by the visibility predicate exactly as if that transaction never ran (aborted creator => invisible, aborted deleter => ignored), TransactionCoordinator::snapshot copies the full aborted and active sets into every snapshot, and Tuple::delete stores exactly the deleter's id and nothing else (Kani on real bytes, every id below 2^63); DmlExecutor::insert/update/delete stamp every version they write with the writing transaction's own id, touch only rows their snapshot can see, and a DELETE first clears the delete mark a rolled-back transaction left on the row (Verus); Tuple::add_version_with increments the version number, leaves no delete mark and changes nothing on failure -- its obligation 'the new version is created by the writer' FAILS on the pinned tree and is the recorded known finding (the new version keeps the previous creator: rolled-back UPDATEs stay visible).",
             "Outside: TransactionCoordinator::abort, statement-level atomicity of the executors, DDL rollback.",
